@@ -48,6 +48,7 @@ import Ctrmml.Proofs.LinkHist
 import Ctrmml.Proofs.LinkRead
 import Ctrmml.Proofs.LinkStored
 import Ctrmml.Proofs.LinkResolve
+import Ctrmml.Proofs.LinkOrder
 import Ctrmml.Spec.Link
 namespace Ctrmml.Linker
 open Ctrmml
@@ -723,6 +724,59 @@ example : ∃ bank, getSeqData exLinked = .ok bank ∧ bank.length < 4294967296 
   | ok b =>
     rw [hg] at h
     exact ⟨b, rfl, by simpa using h, by decide +kernel⟩
+
+/-! ### song order and the resolver's loop over all songs -/
+
+/-- The linker's group key is the spec's group symbol and its map order is the spec's dictionary
+order: `keyify_string` = `symbolOf` (blanks to `_`, letters upper-cased, digits and `_` kept, the rest
+dropped, `_` before a leading digit), default group `BGM`, and `std::string::operator<` on two keys
+holds exactly when the spec's byte-wise dictionary order does and the keys differ. -/
+theorem C10_group_key_agrees :
+    (∀ s : Bytes, keyify s = LinkSpec.symbolOf s) ∧ (∀ g : Bytes, groupKey g = LinkSpec.groupOf g) ∧
+    (∀ a b : Bytes, bytesLt a b = true ↔ (LinkSpec.lexLe (a.map (·.toNat)) (b.map (·.toNat)) = true ∧ a ≠ b)) :=
+  ⟨keyify_eq, groupKey_eq, bytesLt_iff⟩
+
+example : groupKey [49, 117, 112, 33] = [95, 49, 85, 80] ∧ bytesLt [66, 71, 77] [83, 70, 88] = true := by decide
+
+/-- Song numbers and the resolver's loop (PARTIAL: PCM start offsets 0 — D11, here in the spec's terms as
+in C10_full_statement — and a linked bank below 4 GiB).  For every list of files the spec reader accepts
+(`songs` = what it reads), linked by a fresh linker without error: the songs of the bank in song-number
+order are exactly the spec's `ordered songs` (group symbols in dictionary order, input order inside a
+group), song for song — `Paired`: same sequence bytes, every patch entry serving the corresponding slot —
+and the resolver's whole per-song loop `mapM' songOk (enumFrom 0 (ordered songs))` returns ok.  This is
+`resolveBank` up to its header-field, span/area and list-level stored-once checks. -/
+theorem C10_resolver_songs_partial (m bk : Nat) (hm : 0 < m) (hm24 : m < 16777216) (hb : bk < 1073741824)
+    (files : List (Bytes × Bytes)) (songs : List LinkSpec.SongIn) (l : Linker) (bank : Bytes)
+    (hparse : files.map (fun f => LinkSpec.parseMds f.2) = songs.map some)
+    (hstart : ∀ s ∈ songs, ∀ sl ∈ s.slots, sl.start = 0)
+    (hrun : runOps (files.map fun f => Op.add f.1 f.2) (Linker.fresh m bk) = .ok l)
+    (hseq : getSeqData l = .ok bank) (hbl : bank.length < 4294967296) :
+    All2 (Paired l) (LinkSpec.ordered songs) l.songs ∧
+    ∃ rs, LinkSpec.mapM' (fun p => LinkSpec.songOk bank (getPcmData l) p.1 p.2) (LinkSpec.enumFrom 0 (LinkSpec.ordered songs)) = .ok rs ∧
+      rs.length = (LinkSpec.ordered songs).length :=
+  ⟨(songs_in_order m bk hm hm24 hb files songs l bank hparse hstart hrun hseq).1,
+   resolver_songs m bk hm hm24 hb files songs l bank hparse hstart hrun hseq hbl⟩
+
+/-- the hypotheses are met by the two example files (both accepted by the spec reader, start offsets 0) -/
+example : ∃ songs : List LinkSpec.SongIn, [(([97] : Bytes), exFileA), ([98], exFileB)].map (fun f => LinkSpec.parseMds f.2) = songs.map some ∧
+    (∀ s ∈ songs, ∀ sl ∈ s.slots, sl.start = 0) ∧ songs.length = 2 := by
+  have hA : (LinkSpec.parseMds exFileA).isSome = true := by decide +kernel
+  have hB : (LinkSpec.parseMds exFileB).isSome = true := by decide +kernel
+  have h0 : ((LinkSpec.parseMds exFileA).getD ⟨[], [], []⟩).slots.all (fun sl => sl.start == 0) = true ∧
+      ((LinkSpec.parseMds exFileB).getD ⟨[], [], []⟩).slots.all (fun sl => sl.start == 0) = true := by
+    constructor <;> decide +kernel
+  refine ⟨[(LinkSpec.parseMds exFileA).getD ⟨[], [], []⟩, (LinkSpec.parseMds exFileB).getD ⟨[], [], []⟩], ?_, ?_, rfl⟩
+  · simp only [List.map_cons, List.map_nil]
+    rw [← some_getD _ _ hA, ← some_getD _ _ hB]
+  · intro s hs sl hsl
+    simp only [List.mem_cons, List.not_mem_nil, or_false] at hs
+    rcases hs with h | h
+    · rw [h] at hsl
+      have := List.all_eq_true.mp h0.1 sl hsl
+      exact beq_iff_eq.mp this
+    · rw [h] at hsl
+      have := List.all_eq_true.mp h0.2 sl hsl
+      exact beq_iff_eq.mp this
 
 /-- The full statement of C10 over the model, kept for the record: for every list of well-formed
 MDS files (as read by the spec's own reader, PCM start offsets 0) that the linker accepts, the
